@@ -214,26 +214,38 @@ def check(ctx, module, required, not_translated=None):
                   "not_translated_by_design": not_translated or {}}
     for e in res.errors:
         ctx.broken.append("link[%s]: %s" % (module, e))
-    for fn, thm in required.items():
-        ob = "link:%s:%s" % (module, thm)
+    for fn, thms in required.items():
+        # `thms`: a theorem name, or several alternatives (e.g. the every-Num equality and its re-association-tolerant variant
+        # over R): the obligation is discharged when one of them checks
+        thms = (thms,) if isinstance(thms, str) else tuple(thms)
+        ob = "link:%s:%s" % (module, "|".join(thms))
         ctx.obligations.append(ob)
         rep = res.translated.get(fn)
         if rep is None or not rep["ok"]:
             ctx.broken.append("link[%s]: the translator rejects the current source of %s: %s" % (module, fn, (rep or {}).get("error", "not requested")))
             continue
-        st = res.theorems.get(thm)
-        if st is True:
-            bad = [a for a in res.axioms.get(thm, []) if a not in coqrun.ALLOWED_AXIOMS and not ctx._primitive(a)]
-            for a in res.axioms.get(thm, []):
-                ctx.axioms[a] = ctx.axioms.get(a, 0) + 1
-            if bad:
-                ctx.broken.append("link[%s]: axiom outside the allowed list under %s: %s" % (module, thm, bad))
+        ok, why = False, []
+        for thm in thms:
+            st = res.theorems.get(thm)
+            if st is True:
+                bad = [a for a in res.axioms.get(thm, []) if a not in coqrun.ALLOWED_AXIOMS and not ctx._primitive(a)]
+                for a in res.axioms.get(thm, []):
+                    ctx.axioms[a] = ctx.axioms.get(a, 0) + 1
+                if bad:
+                    why.append("axiom outside the allowed list under %s: %s" % (thm, bad))
+                else:
+                    ok = True
+                    break
+            elif st is None:
+                why.append("no link theorem %s" % thm)
             else:
-                ctx.discharged.append(ob)
-        elif st is None:
-            ctx.broken.append("link[%s]: no link theorem %s for %s" % (module, thm, fn))
+                why.append("theorem %s %s" % (thm, st))
+        if ok:
+            ctx.discharged.append(ob)
+            if why:
+                ctx.notes.append("link[%s] %s: %s; discharged by %s" % (module, fn, "; ".join(why)[:300], thm))
         else:
-            ctx.broken.append("link[%s]: theorem %s (translated source of %s = model) %s" % (module, thm, fn, st))
+            ctx.broken.append("link[%s]: translated source of %s = model: %s" % (module, fn, "; ".join(why)))
     return res
 
 
